@@ -41,7 +41,8 @@ Definition site_discharge : list (psite * ptag) := [
   ((cli +++ "utils.rs", "render_migration_name", "index", 6),
      GuardedByCheck "chars[i], chars[i+1], chars[j] each behind `i < chars.len()` / `i + 1 < chars.len()` / `j < chars.len()`");
   (* ---- vespertide-core ---- *)
-  ((core +++ "action.rs", "fmt", "slice", 1), KnownPanic "C16-display-rawsql-slice");
+  ((core +++ "action.rs", "fmt", "slice", 1),
+     GuardedByCheck "&sql[..end] behind `while !sql.is_char_boundary(end) { end -= 1 }` starting at 47 with sql.len() > 50 (fix b4532c3): end is a char boundary <= len, index 0 always is one; modelled: Display.floor_char_boundary, theorem display_total");
   ((core +++ "action.rs", "with_prefix", "recursion", 4), delegation);
   ((core +++ "schema/column.rs", "default_fill_value", "recursion", 2), delegation);
   ((core +++ "schema/column.rs", "len", "recursion", 2), delegation);
@@ -132,9 +133,9 @@ Inductive htag :=
 Definition hsite := (string * string * string * string * nat)%type.     (* file, fn, container, kind, count *)
 
 Definition hash_allow : list (hsite * htag) := [
-  ((exporter +++ "sqlalchemy/mod.rs", "render_entity", "datetime_types", "iter", 1), IteratedUnsorted "C18-datetime-import-order");
-  ((exporter +++ "sqlalchemy/mod.rs", "render_entity", "sa_types", "iter", 1), SortedAfter "sorted_imports_oracle_free");
-  ((exporter +++ "sqlmodel/mod.rs", "render_entity", "datetime_types", "iter", 1), IteratedUnsorted "C18-datetime-import-order")
+  ((exporter +++ "sqlalchemy/mod.rs", "render_entity", "datetime_types", "iter", 1), SortedAfter "imports_oracle_free (datetime_imports.sort(), fix 44cb6cb)");
+  ((exporter +++ "sqlalchemy/mod.rs", "render_entity", "sa_types", "iter", 1), SortedAfter "imports_oracle_free");
+  ((exporter +++ "sqlmodel/mod.rs", "render_entity", "datetime_types", "iter", 1), SortedAfter "imports_oracle_free (datetime_imports.sort(), fix 44cb6cb)")
 ].
 
 Definition hsite_eqb (a b : hsite) : bool :=
@@ -148,3 +149,6 @@ Definition stale_hash (gen : list hsite) : list hsite :=
 (* no iteration site at all in the SeaORM exporter: its containers are observed by contains / len / get only *)
 Definition seaorm_sites (gen : list hsite) : list hsite :=
   filter (fun s => let '(f, _, _, _, _) := s in String.eqb f (exporter +++ "seaorm/mod.rs")) gen.
+
+Definition iterated_unsorted_ids : list string :=
+  flat_map (fun e => match snd e with IteratedUnsorted id => [id] | _ => [] end) hash_allow.
